@@ -283,7 +283,7 @@ func coqStored(status int, out *storage.GetOutput, agg string) string {
 	spy, units := "", ""
 	var rate uint32
 	if out != nil && out.Tree != nil {
-		treeS = lib.Some(treeu.Coq(out.Tree.VerifDump()))
+		treeS = lib.Some(coqTree(out.Tree.VerifDump()))
 		spy, rate, units = out.SpyName, out.SampleRate, out.Units
 	}
 	return "{| st_status := " + lib.N(uint64(status)) + "; st_tree := " + treeS +
@@ -355,6 +355,24 @@ func cbytes(b []byte) string {
 	return "(" + strings.Join(parts, " ++ ") + ")%list"
 }
 
+// coqTree prints a dumped tree with run-length encoded long names.
+func coqTree(n *tree.VerifNode) string {
+	var sb strings.Builder
+	var rec func(n *tree.VerifNode)
+	rec = func(n *tree.VerifNode) {
+		sb.WriteString("(TNode " + cbytes(n.Name) + " " + lib.N(n.Self) + " " + lib.N(n.Total) + " [")
+		for i, c := range n.Children {
+			if i > 0 {
+				sb.WriteString("; ")
+			}
+			rec(c)
+		}
+		sb.WriteString("])")
+	}
+	rec(n)
+	return sb.String()
+}
+
 func parseGroupsGo(body []byte) string {
 	items := []string{}
 	err := convert.ParseGroups(bytes.NewReader(body), func(name []byte, val int) {
@@ -389,10 +407,35 @@ func run(in Input) (res lib.Result) {
 	e := E
 	none := "None"
 	if in.Raw != nil || in.Class == "raw" {
-		coq := "{| c_ms := []; c_text_ok := false; c_meta := None; c_groups := None; c_lines := None; c_trie := None; c_tree := None; " +
+		e.counter++
+		base := fmt.Sprintf("c06.p%d.r%d", os.Getpid(), e.counter)
+		st := time.Date(2021, 1, 1, 0, 0, 0, 0, time.UTC).Add(time.Duration(in.Slot) * 10 * time.Second)
+		et := st.Add(10 * time.Second)
+		send := func(name, format string) string {
+			q := url.Values{}
+			q.Set("name", name)
+			q.Set("from", strconv.FormatInt(st.Unix(), 10))
+			q.Set("until", strconv.FormatInt(et.Unix(), 10))
+			if format != "" {
+				q.Set("format", format)
+			}
+			req := httptest.NewRequest("POST", "/ingest?"+q.Encode(), bytes.NewReader(in.Raw))
+			req.Header.Set("Content-Type", "text/plain")
+			rec := httptest.NewRecorder()
+			e.handler.ServeHTTP(rec, req)
+			return lib.Some(e.readBack(name, st, et, rec.Code))
+		}
+		rg := send(base+".groups", "")
+		rl := send(base+".lines", "lines")
+		msItems := make([]string, len(in.MS))
+		for i, s := range in.MS {
+			msItems[i] = lib.Pair(cbytes(s.Key), lib.N(s.V))
+		}
+		coq := "{| c_ms := " + lib.List(msItems) + "; c_text_ok := false; c_meta := None; c_groups := None; c_lines := None; c_trie := None; c_tree := None; " +
 			"c_job := None; c_remote := None; c_direct := None; c_go_groups := None; c_go_lines := None; c_raw := " +
-			lib.Some("("+cbytes(in.Raw)+", "+parseGroupsGo(in.Raw)+", "+parseLinesGo(in.Raw)+")") + " |}"
-		return lib.Result{Coq: coq, NonTrivial: false, Feat: map[string]interface{}{"class": "raw", "raw_len": len(in.Raw)}}
+			lib.Some("("+cbytes(in.Raw)+", "+parseGroupsGo(in.Raw)+", "+parseLinesGo(in.Raw)+")") +
+			"; c_raw_groups := " + rg + "; c_raw_lines := " + rl + " |}"
+		return lib.Result{Coq: coq, NonTrivial: false, Feat: map[string]interface{}{"class": "raw", "raw_len": len(in.Raw), "raw_with_intent": len(in.MS) > 0}}
 	}
 	e.counter++
 	base := fmt.Sprintf("c06.p%d.n%d", os.Getpid(), e.counter)
@@ -483,9 +526,6 @@ func run(in Input) (res lib.Result) {
 		rec := httptest.NewRecorder()
 		e.handler.ServeHTTP(rec, req)
 		body := bodies[f]
-		if f == "tree" {
-			body = nil
-		}
 		sentCoq[f] = lib.Some("{| sn_query := " + coqQuery(q) + "; sn_ctype := " + lib.Bytes([]byte(ct)) +
 			"; sn_body := " + lib.Bytes(body) + "; sn_stored := " + e.readBack(name, st, et, rec.Code) + " |}")
 	}
@@ -553,7 +593,7 @@ func run(in Input) (res lib.Result) {
 	coq := "{| c_ms := " + treeu.CoqStacks(in.MS) + "; c_text_ok := " + lib.Bool(textok) + "; c_meta := " + metaCoq +
 		"; c_groups := " + sentCoq["groups"] + "; c_lines := " + sentCoq["lines"] + "; c_trie := " + sentCoq["trie"] +
 		"; c_tree := " + sentCoq["tree"] + "; c_job := " + jobCoq + "; c_remote := " + remoteCoq + "; c_direct := " + directCoq +
-		"; c_go_groups := " + goGroups + "; c_go_lines := " + goLines + "; c_raw := None |}"
+		"; c_go_groups := " + goGroups + "; c_go_lines := " + goLines + "; c_raw := None; c_raw_groups := None; c_raw_lines := None |}"
 
 	// features: prefix structure
 	nonBoundary, prefixOf, repeats := false, false, false
